@@ -9,6 +9,9 @@ DMF = "litedram/frontend/dma.py"
 MDF = "litedram/modules.py"
 COF = "litedram/common.py"
 CTF = "litedram/core/controller.py"
+ADF = "litedram/frontend/adapter.py"
+WBF = "litedram/frontend/wishbone.py"
+AVF = "litedram/frontend/avalon.py"
 
 
 def M(id, prop, ob, file, old, new, expect="refuted", **kw):
@@ -149,4 +152,16 @@ MUTANTS = [
     M("c06.5-sdr", "C06", "C06.5", CTF, "burst_length = phy_settings.nphases", "burst_length = 2*phy_settings.nphases"),
     B("c06-twin-split", "C06", BMF, "    def row(self, address):\n        split = self.colbits - self.address_align\n        return address[split:]", "    def row(self, address):\n        return address[self.colbits - self.address_align:]"),
     B("c06-twin-rca", "C06", COF, "            if cba_shift:\n                return Cat(self.cmd.addr[:cba_shift], self.cmd.addr[cba_upper:])\n            else:\n                return self.cmd.addr[cba_upper:]", "            return Cat(self.cmd.addr[:cba_shift], self.cmd.addr[cba_upper:])"),
+    # ---- C07 ----
+    M("c07.1-addr+1", "C07", "C07.1", ADF, "port_to.cmd.addr.eq(cmd_addr*ratio + cmd_count),", "port_to.cmd.addr.eq(cmd_addr*ratio + cmd_count + 1),"),
+    M("c07.1-count", "C07", "C07.1", ADF, "If(cmd_count == (ratio - 1),", "If(cmd_count == ratio,"),
+    M("c07.1-reverse", "C07", "C07.1", ADF, "                description_from = port_to.rdata.description,\n                description_to   = port_from.rdata.description,\n                reverse          = reverse)\n            self.submodules += rdata_converter\n            self.submodules += stream.Pipeline(", "                description_from = port_to.rdata.description,\n                description_to   = port_from.rdata.description,\n                reverse          = not reverse)\n            self.submodules += rdata_converter\n            self.submodules += stream.Pipeline("),
+    B("c07.1-twin", "C07", ADF, "port_to.cmd.addr.eq(cmd_addr*ratio + cmd_count),", "port_to.cmd.addr.eq(cmd_count + ratio*cmd_addr),"),
+    M("c07.2-lane-bits", "C07", "C07.2", ADF, "NextValue(sel, 1 << port_from.cmd.addr[:log2_int(ratio)]),", "NextValue(sel, 1 << port_from.cmd.addr[:log2_int(ratio) - 1]),"),
+    M("c07.2-wide-addr", "C07", "C07.2", ADF, "port_to.cmd.addr.eq(cmd_addr[log2_int(ratio):]),", "port_to.cmd.addr.eq(cmd_addr[log2_int(ratio) + 1:]),"),
+    M("c07.2-mask-order", "C07", "C07.2", ADF, "                    for i in range(ratio)\n                ]", "                    for i in reversed(range(ratio))\n                ]"),
+    M("c07.3-wb-sign", "C07", "C07.3", WBF, "addr_shift = -log2_int(wishbone_data_width//port_data_width)", "addr_shift = log2_int(wishbone_data_width//port_data_width)"),
+    M("c07.3-av-sign", "C07", "C07.3", AVF, "addr_shift = -log2_int(avalon_data_width//port_data_width)", "addr_shift = log2_int(avalon_data_width//port_data_width)"),
+    M("c07.4-lane-order", "C07", "C07.4", ADF, "\n                        | (port_from.cmd.valid & ((sel >> port_from.cmd.addr[:log2_int(ratio)]) != 0))),", "),"),
+    B("c07.4-twin", "C07", ADF, "((sel >> port_from.cmd.addr[:log2_int(ratio)]) != 0)", "((sel & ~((1 << port_from.cmd.addr[:log2_int(ratio)]) - 1)) != 0)"),
 ]
